@@ -360,6 +360,8 @@ pub fn main() -> i32 {
     }
     o.nl();
 
+    #[cfg(feature = "full")]
+    {
     o.s("aux ");
     o.num(tiny_std::elf::aux::get_uid() as u128);
     o.s(" ");
@@ -378,6 +380,12 @@ pub fn main() -> i32 {
         None => o.s("none"),
     }
     o.nl();
+    }
+    #[cfg(not(feature = "full"))]
+    {
+        o.s("aux na na na na");
+        o.nl();
+    }
     o.s("procauxv ");
     match tiny_std::fs::read(UnixStr::from_str_checked("/proc/self/auxv\0")) {
         Ok(v) => o.hex(&v),
